@@ -61,8 +61,11 @@ prop("C05", engine="eval", prefixes=["C05."], level="model_checking",
      mc=("MxEval", "MC_MxEval_quick.cfg", "MC_MxEval_thorough.cfg"),
      jobs=lambda tier: [("fail", dict(gen=dict(p_raise=0.2, p_none=0.1, p_catch=0.2, p_base_exc=0.3))),
                         ("fail", dict(gen=dict(p_raise=0.1, p_none=0.05, p_base_exc=0.2), maxdepth=3)),
-                        ("fail", dict(gen=dict(p_raise=0.25, p_catch=0.1, p_rr=0.3, p_base_exc=0.2)))],
-     quick=dict(traces=96, nops=25), thorough=dict(traces=2400, nops=40))
+                        ("fail", dict(gen=dict(p_raise=0.25, p_catch=0.1, p_rr=0.3, p_base_exc=0.2))),
+                        ("fail", dict(gen=dict(p_raise=0.2, p_uncached=0.5, p_catch=0.0)))],
+     quick=dict(traces=128, nops=30), thorough=dict(traces=3200, nops=40),
+     # "every later evaluation returns the same values as if the failure had not happened"
+     also=["C02.NoStale", "C01.Transparent"])
 prop("C06", engine="eval", prefixes=["C06."], level="model_checking",
      mc=("MxEval", "MC_MxEval_quick.cfg", "MC_MxEval_thorough.cfg"),
      jobs=lambda tier: [("value", dict(gen=dict(p_uncached=0.1, p_catch=0.0))),
@@ -186,7 +189,10 @@ def corrupt(pid, tr, rng):
         if pid == "C01" and e["op"] == "call" and isinstance(e["res"], int) and e["res"] >= 0:
             e["res"] += 1
             return t, "C01.Transparent"
-        if pid == "C02":
+        if pid == "C02" and not any(f.get("catch") for f in t["hdr"]["init"]["flib"].values()) \
+                and not any(x.get("res") == "rejected" for x in evs):
+            # (values behind a swallowed failure are exempt as KF1; a half-updated model
+            #  -- KF4 -- stops the judgement of the rest of its trace)
             calc = [d for d in post["data"] if d[0] not in post["inputs"]]
             if calc:
                 rng.choice(calc)[1] += 1
